@@ -137,11 +137,24 @@ def h_install(shape_name, sym_entry=None):
             if r['t_proto'] != ipsec_proto or r['t_mode'] != e['mode'] or r['action'] != K['XFRM_POLICY_ALLOW']:
                 return {'class': ['install'], 'violation': f'entry {e["name"]} {what}: IPsec protocol / mode / action differ from the configuration'}
     del s.sent[:]
-    ctl.control_socket = types.SimpleNamespace(close=lambda: None)
-    ctl.close()
+    # shutdown at any moment after the constructor (the policies are installed there): while the loop runs (the status socket exists), before
+    # main_loop() has created it (the entry script arms its signal handler right after the constructor), or with a status socket whose close() fails
+    when = eng.sym_int('shutdown_moment', 0, 2)
+    when = eng.concretize(when, 0, 2) if not isinstance(when, int) else when
+    if when == 0:
+        ctl.control_socket = types.SimpleNamespace(close=lambda: None)
+    elif when == 2:
+        def broken():
+            raise OSError(9, 'Bad file descriptor')
+        ctl.control_socket = types.SimpleNamespace(close=broken)
+    try:
+        ctl.close()
+    except Exception:     # noqa - what matters is what reached the kernel before
+        pass
     tys = [klayout.View(d).u('nlmsghdr', 'nlmsg_type') for d in s.sent]
     if sorted(tys) != sorted([K['XFRM_MSG_FLUSHPOLICY'], K['XFRM_MSG_FLUSHSA']]):
-        return {'class': ['install'], 'violation': f'shutdown sends {tys}, expected FLUSHPOLICY and FLUSHSA'}
+        moment = ('while the loop runs', 'before main_loop() created the status socket', 'with a status socket whose close() fails')[when]
+        return {'class': ['install'], 'violation': f'shutdown {moment} sends {tys}, expected FLUSHPOLICY and FLUSHSA'}
     return ['install', len(meta)]
 
 
